@@ -62,6 +62,9 @@ class _R(object):
             return '<no repr>'
 
 
+_BIGRES = [False]
+
+
 def _res(text):
     """the result for a call: mostly the text itself (unique per bound arguments), but a fixed fraction of
     calls return None or another falsy value, which every backend stores losslessly and which a cache
@@ -74,7 +77,8 @@ def _res(text):
     if h == 2:
         return 0
     if h == 3:
-        return text + '#' * 9000       # larger than one write buffer
+        # larger than one write buffer; in "bigres" runs larger than one MiB (block-wise (de)compression)
+        return text + '#' * (1200000 if _BIGRES[0] else 9000)
     return text
 
 
@@ -239,6 +243,8 @@ def gen_config(rng, prop, tier):
         maxsize = rng.choice([30, 40])      # LFU evicts max(2, maxsize//10) entries: >2 only from 30 up
     purge = rng.chance(0.3) and prop != 'C06'
     fn = rng.weighted([(3, 'f1'), (4, 'f2'), (2, 'f3'), (2, 'f4'), (2, 'f5'), (2, 'f6'), (1, 'f7'), (1, 'f8'), (1, 'f9')])
+    if wide:
+        fn = rng.choice(['f2', 'f6', 'f9', 'f2'])       # enough distinct bound-argument combinations
     # backend
     labels = [None, None, 'dict', 'dict', 'null', 'file-pkl', 'file-json', 'file-src',
               'dir-pkl', 'dir-json', 'dir-fast', 'dir-z', 'dir-mmap', 'dir-src',
@@ -278,7 +284,9 @@ def gen_config(rng, prop, tier):
     cfg = {'module': module, 'algo': algo, 'maxsize': maxsize, 'maxsize_pos': maxsize_pos,
            'purge': purge, 'keymap': km, 'fn': fn,
            'backend': B.config(label, 'm0') if label else None, 'direct': direct,
-           'ignore': None, 'tol': None, 'deep': False, 'wide': wide}
+           'ignore': None, 'tol': None, 'deep': False, 'wide': wide,
+           'bigres': label in ('dir-z', 'dir-fast', 'dir-mmap', 'dir-pkl', 'file-pkl', 'sql-file') and not wide
+           and rng.chance(0.12)}
     if prop == 'C18' and rng.chance(0.35) and not (km['kind'] == 'pickle' and km['arg'] == 'json') \
        and not (label in ('file-src', 'dir-src') and km['kind'] == 'raw'):
         if fn in ('f2', 'f6', 'f7') and rng.chance(0.5):
@@ -499,6 +507,34 @@ def generate(rng, prop, tier):
             ops.append({'op': 'advance', 'dt': rng.weighted([(5, 0), (3, 1), (1, 3600), (1, -1)])})
         else:
             ops.append({'op': kind})
+    if prop in ('C06', 'C05', 'C07', 'C01') and cfg['algo'] in ('lfu', 'lru', 'mru', 'rr') \
+       and cfg['maxsize'] not in (0, None) and rng.chance(0.5 if cfg.get('wide') else 0.08):
+        # "sweep" workload: a working set as large as the cache is used the same number of times (all use
+        # counts tie, recency order = sweep order), then new arguments arrive and overflow it
+        ms = cfg['maxsize']
+        seen, base = set(), []
+        for _ in range(3000):
+            c = logical_call(rng, fn, pool, True)
+            cj = json.dumps(dict((k, enc(v)) for k, v in c.items()), sort_keys=True)
+            if cj not in seen:
+                seen.add(cj)
+                base.append(c)
+            if len(base) >= ms + rng.randint(3, 8):
+                break
+        work, fresh = base[:ms], base[ms:]
+        if len(work) == ms and fresh:
+            ops = []
+            for r in range(rng.randint(1, 3)):
+                order = list(work)
+                if rng.chance(0.5):
+                    rng.shuffle(order)
+                ops.extend(spell(rng, fn, c) for c in order)
+                if rng.chance(0.3) and order:
+                    ops.append(spell(rng, fn, rng.choice(order)))     # one entry gets an extra use
+            for c in fresh:
+                ops.append(spell(rng, fn, c))
+                if rng.chance(0.4):
+                    ops.append(spell(rng, fn, rng.choice(work + fresh)))
     if any(k == 'sibling_call' for (_, k) in mix) and rng.chance(0.15):
         # the sibling is keyed before the function under test ever is
         op = spell(rng, fn, rng.choice(hot))
@@ -545,6 +581,7 @@ class World(object):
         self.evals = []
         self.raise_next = None
         self.fn, self.rfn = FUNCS[self.cfg['fn']]
+        _BIGRES[0] = bool(self.cfg.get('bigres'))
         self.generation = 0
         self.swapped = 0
         self.f = None
@@ -1259,6 +1296,8 @@ def simplify(case):
         yield variant(tol=None, deep=False)
     if cfg.get('ignore') is not None:
         yield variant(ignore=None)
+    if cfg.get('bigres'):
+        yield variant(bigres=False)
     for i, op in enumerate(case['ops']):
         if op['op'] in ('load_k', 'dump_k') and len(op['calls']) > 1:
             c = _copy.deepcopy(case)
